@@ -162,6 +162,10 @@ impl Scenario for C01 {
         if rng.chance(1, 25) {
             text.insert_str(0, rng.s(&["\u{feff}", "\u{200b}", "\u{feff}\u{feff}"]));
         }
+        if rng.chance(1, 150) {
+            // a clear-signed wrapper is just more text to this reader: it comes back byte for byte
+            text = format!("-----BEGIN PGP SIGNED MESSAGE-----\nHash: SHA256\n\n{text}{}-----BEGIN PGP SIGNATURE-----\n\niQIzBAEBCAAdFiEE\n=olY7\n-----END PGP SIGNATURE-----\n", if text.ends_with('\n') || text.is_empty() { "" } else { "\n" });
+        }
         let faulty = rng.chance(1, 3);
         let plan = gen_read_plan(rng, text.len(), faulty);
         let followup = if rng.chance(1, 3) {
